@@ -17,7 +17,7 @@ RULE = ('grammar-directed random programs (profiles sequential/deep: 1-5 functio
         'positions, global shadowing, by-reference arrays, recursion, entry-point arguments), each run at word sizes '
         '2,3,4 (8 on a sample) x generous stack + 2 tight stacks; a case is one (program, args); non-trivial = the '
         'model executed >= 1 user call and the committed output has >= 20 bytes; distinct by hash of (source, args); plus the enumerated idiom grids of gen/idioms.py '
-        '(204 scoping/shadowing programs, 96 left-operand x right-operand programs, 448 + 51 value-capture programs, 48 narrowing programs, 8 fresh-literal programs, 15 expression-statement and 9 tail-call programs, neighbouring globals of every type, 20-element bit-vectors, overloads by arity in every declaration order, 12 programs of coinciding constant tables, 319 entry-point signatures), each with 2-3 argument vectors; plus the scale grids of gen/scale.py (1-257 locals per frame in 3 shapes, 1-65 parameters, arrays of 7-1000 elements x 3 element types x 3 storage classes, 9-111 loops/ifs/tables/strings per program, nesting depth 3-10 x 4 exit routes, 10-257 globals)')
+        '(204 scoping/shadowing programs, 96 left-operand x right-operand programs, 448 + 51 value-capture programs, 48 narrowing programs, 8 fresh-literal programs, 15 expression-statement and 9 tail-call programs, neighbouring globals of every type, 20-element bit-vectors, overloads by arity in every declaration order, 12 programs of coinciding constant tables, 319 entry-point signatures), each with 2-3 argument vectors, at word sizes 2, 3, 4, 8 and in rotation 5, 6, 7, 12, 16 bytes; plus the scale grids of gen/scale.py (1-257 locals per frame in 3 shapes, 1-65 parameters, arrays of 7-1000 elements x 3 element types x 3 storage classes, 9-111 loops/ifs/tables/strings per program, nesting depth 3-10 x 4 exit routes, 10-257 globals)')
 ASSUMPTIONS = common.ISA_ASSUMPTIONS
 REQUIRED_HIDC_FUNCTIONS = ['codegen/generator:CodeGen.eval_expr', 'codegen/generator:CodeGen.eval_func_call', 'codegen/generator:CodeGen.lookup_var']     # M-COV: deciding code never entered => inconclusive
 MIN_NONTRIVIAL = {'quick': 100, 'thorough': 1000}
@@ -90,8 +90,9 @@ def check_idiom(res, prog, argsets, tier, tag, k):
     words = tuple(common.WORDS_ALL) + (8,)
     if tier == 'quick':
         pairs = [(argsets[(k + j) % len(argsets)], words[j % len(words)]) for j in range(max(len(argsets), len(words)))]
+        pairs.append((argsets[k % len(argsets)], common.ODD_WORDS[k % len(common.ODD_WORDS)]))      # 40-, 48-, 56-, 96-, 128-bit words in rotation
     else:
-        pairs = [(a, w) for a in argsets for w in words]
+        pairs = [(a, w) for a in argsets for w in words + common.ODD_WORDS]
     for args, word in pairs:
         res['evaluations'] += 1
         ref, why = diff.model_run(prog, args, word)
@@ -133,9 +134,10 @@ def run_shard(spec):
                 continue
             j = k // spec['parts']
             if spec['tier'] == 'quick':
-                pairs = [(argsets[j % len(argsets)], words[j % 4]), (argsets[(j + 1) % len(argsets)], words[(j + 2) % 4])]
+                pairs = [(argsets[j % len(argsets)], words[j % 4]), (argsets[(j + 1) % len(argsets)], words[(j + 2) % 4]),
+                         (argsets[j % len(argsets)], common.ODD_WORDS[j % len(common.ODD_WORDS)])]
             else:
-                pairs = [(a, w) for a in argsets for w in words]
+                pairs = [(a, w) for a in argsets for w in words + common.ODD_WORDS]
             for args, word in pairs:
                 if not common.check_scale(res, prog, args, word, tag, monitors=()) and res['failures']:
                     break
